@@ -35,7 +35,7 @@ def obligations(tier):
            det + ['bin_file_type._lis', 'LIS.core.File.file_read_with_best_physical_record_pad_settings', 'LIS.core.FileIndexer.FileIndex'], harness='C20_filetype', func='recognise_lis',
            timeout=280 if q else 900, parts=16),
         Ob('recognise_lis_with_other_record_types', 'ch', 'LIS files holding one record of each of the 20 other LIS-79 logical record types (operator, comment, blank, picture, image, boot / program, '
-           'table dumps, data descriptor, logical EOF/BOT/EOT/EOM) with an opaque body: before the log, after it, or alone between file header and trailer; TIF on/off, split physical records',
+           'table dumps, data descriptor, logical EOF/BOT/EOT/EOM) with an opaque body (short with control bytes, or several hundred bytes of plain text so that the file begins with nothing above 0x80): before the log, after it, or alone between file header and trailer; TIF on/off, split physical records',
            det + ['bin_file_type._lis', 'LIS.core.FileIndexer.FileIndex (record dispatch)', 'LIS.core.LogiRec record classes'], harness='C20_filetype', func='recognise_lis_other_records',
            timeout=170 if q else 600),
         Ob('recognise_las', 'ch', 'LAS 1.2/2.0, 2..4 curves, wrap, indentation 0..2, comments, blank lines, 8 cell vocab offsets',
